@@ -1682,7 +1682,7 @@ func (g *SpecGen) unmarshalContract(r *Record) {
 		g.line("  ensures [FRAMELEN] err == nil ==> len(buf) >= %d && %d + old(leval(buf, 0, 4)) <= len(buf)", hdr, hdr)
 	}
 	// no single make() requests memory out of proportion to the input still to be read
-	g.line("  assert after \"make(\": [ALLOC] lastalloc() <= %d * (len(buf) - at)", allocK)
+	g.line("  assert every after \"make(\": [ALLOC] lastalloc() <= %d * (len(buf) - at)", allocK)
 	if g.hasMap(self) {
 		g.line("  modifies *bbp, fresh(), tr(), hw(), alloc()")
 	} else {
